@@ -473,7 +473,10 @@ class MiniEval:
                 except Exception as ex:
                     raise Undetermined('str.%s failed: %s' % (f.attr, ex))
             if isinstance(base, (_dt.datetime, _dt.date)) and f.attr in _DT_METHODS:
-                return getattr(base, f.attr)(*args, **kwargs)
+                try:
+                    return getattr(base, f.attr)(*args, **kwargs)
+                except (ValueError, OverflowError, TypeError) as ex:
+                    raise _Raised(ex)        # e.g. replace(year=...) on 29 February: the real code raises the same
             if isinstance(base, _dt.timedelta) and f.attr == 'total_seconds' and not args:
                 return base.total_seconds()
             if isinstance(base, dict) and f.attr == 'get':
@@ -1385,7 +1388,7 @@ def oneword_case(idx, owner, fn, guard_name, ref, sw, swift_names, enum_vals, co
     except _Return:
         pass
     except _Raised as r:
-        raise AnalysisError('%s[%s]: interpreted branch raises %s' % (fn.name, guard_name, type(r.exc).__name__))
+        env['<raised>'] = '%s: %s' % (type(r.exc).__name__, r.exc)      # the model swallows it: no result for this input
     except Undetermined as e:
         raise AnalysisError('%s[%s]: branch cannot be interpreted: %s' % (fn.name, guard_name, e))
     for k, v in rec.__dict__.items():          # stores made by a helper the branch delegates to
@@ -1421,7 +1424,7 @@ def oneword_refs():
     for y in (2019, 2020):
         for m in range(1, 13):
             for d in (1, 15, calendar.monthrange(y, m)[1]):
-                out.append(_dt.datetime(y, m, d, 9, 30, 15))
+                out.append(_dt.datetime(y, m, d, 9, 30, 15))      # includes the leap day 2020-02-29
     return out
 
 
@@ -1924,8 +1927,9 @@ def run(chk):
                   % (guard, nf[1], nf[2], '*'.join(nf[3]), REF_PERIOD[guard][0], REF_PERIOD[guard][1]), ln)
     for g in ('is_week_only', 'is_month_only', 'is_year_only'):
         if g not in seen_guards:
-            chk.bad('C08.period', bpp.mod.path, 'BaseDatePeriodParser._parse_one_word_period[%s]' % g, 'no shift',
-                    'no delta multiplied by the swift under %s: next/last %s would resolve to the current one' % (g, g[3:-5]), pf.lineno)
+            chk.exempt('C08.period', bpp.mod.path, 'BaseDatePeriodParser._parse_one_word_period[%s]' % g,
+                       'the shift under %s is not written as a t/datedelta of the swift; the branch is decided by interpretation (C08.oneword)' % g,
+                       'no delta form', pf.lineno)
     ctl = ast.parse("def p(self):\n    swift = self.config.get_swift_day_or_month(t)\n    if self.config.is_week_only(t):\n"
                     "        d = DateUtils.this(reference, 1) + datedelta(days=swift)\n").body[0]
     cs, _ = period_shifts(ctl, consts)
@@ -1977,6 +1981,9 @@ def run(chk):
                 wt, ws, we = oneword_expected(guard, ref, sw)
                 n_cases += 1
                 fv, pv, tx = env.get('result.future_value'), env.get('result.past_value'), env.get('result.timex')
+                if '<raised>' in env:
+                    bad_range.append((ref, sw, 'future', ('raises ' + env['<raised>'], ''), (ws, we), tx))
+                    continue
                 if not (isinstance(fv, list) and isinstance(pv, list) and len(fv) == 2 and len(pv) == 2):
                     raise AnalysisError('_parse_one_word_period[%s]: no [start, end] pair reaches result.future_value/past_value' % guard)
                 for which, pair in (('future', fv), ('past', pv)):
